@@ -353,7 +353,10 @@ pub fn compare_view(buf: &[u8], msg: &Message, view: &RefView, check_prop: &str)
         ($t:ident) => {{
             let ty = <$t>::TYPE.value();
             let first = want.iter().find(|w| w.0 == ty);
-            let got = msg.attribute::<$t>();
+            let got = match guard(|| msg.attribute::<$t>()) {
+                Guarded::Ok(v) => v,
+                Guarded::Panicked(m, l) => return Err(Violation::new("C01", "no_panic", concat!("Message::attribute::<", stringify!($t), ">"), format!("typed lookup panicked: {m} at {}", short_loc(&l)))),
+            };
             let hidden = view.all.iter().any(|a| a.ty == ty) && first.is_none();
             let ending = ty == MI || ty == MI256 || ty == FP;
             let (prop, clause) = if hidden || (ending && check_prop != "C02") { ("C10", "lookup") } else { ("C02", "lookup_first_match") };
@@ -365,7 +368,10 @@ pub fn compare_view(buf: &[u8], msg: &Message, view: &RefView, check_prop: &str)
                 }
                 Some(w) => {
                     let raw = RawAttribute::new(<$t>::TYPE, w.1);
-                    let want_t = <$t>::from_raw(&raw);
+                    let want_t = match guard(|| <$t>::from_raw(&raw)) {
+                        Guarded::Ok(v) => v,
+                        Guarded::Panicked(m, l) => return Err(Violation::new("C01", "no_panic", concat!(stringify!($t), "::from_raw"), format!("typed decoder panicked: {m} at {}", short_loc(&l)))),
+                    };
                     let same = match (&got, &want_t) {
                         (Ok(a), Ok(b)) => format!("{a:?}") == format!("{b:?}"),
                         (Err(_), Err(_)) => true,
